@@ -16,24 +16,24 @@ import subprocess
 import sys
 
 MUTATIONS: dict[str, str] = {
-    'm1': '''# parameter_elasticities: reset statement dropped (stale perturbed parameter)
+    'm1': r'''# parameter_elasticities: reset statement dropped (stale perturbed parameter)
 p='src/mxlpy/mca.py'; s=open(p).read()
 old="        # Reset\n        model.update_parameters({par: old})\n"
 assert s.count(old)==1; s=s.replace(old,""); open(p,'w').write(s)
 ''',
-    'm2': '''# variable_elasticities: asymmetric lower displacement
+    'm2': r'''# variable_elasticities: asymmetric lower displacement
 p='src/mxlpy/mca.py'; s=open(p).read()
 old="variables=variables | {var: old * (1 - displacement)}, time=time"
 assert s.count(old)==1; s=s.replace(old,"variables=variables | {var: old * (1 - 2 * displacement)}, time=time"); open(p,'w').write(s)
 ''',
-    'm3': '''# worker: parameter reset moved before the (lazy) result views are evaluated
+    'm3': r'''# worker: parameter reset moved before the (lazy) result views are evaluated
 p='src/mxlpy/mca.py'; s=open(p).read()
 rst="    # Reset\n    model.update_parameters({parameter: old})\n"
 assert s.count(rst)==1; s=s.replace(rst,"")
 anchor="    conc_resp = (upper.variables.iloc[-1]"
 assert s.count(anchor)==1; s=s.replace(anchor, rst+anchor); open(p,'w').write(s)
 ''',
-    'm4': '''# parameter_elasticities: reset after the normalisation (scaled by the flux at the perturbed parameter)
+    'm4': r'''# parameter_elasticities: reset after the normalisation (scaled by the flux at the perturbed parameter)
 p='src/mxlpy/mca.py'; s=open(p).read()
 old="""        # Reset
         model.update_parameters({par: old})
@@ -49,7 +49,7 @@ new="""        elasticity_coef = (upper - lower) / (2 * displacement * old)
 """
 assert s.count(old)==1; s=s.replace(old,new); open(p,'w').write(s)
 ''',
-    'm5': '''# worker: initial values restored too early (before the normalisation run)
+    'm5': r'''# worker: initial values restored too early (before the normalisation run)
 p='src/mxlpy/mca.py'; s=open(p).read()
 old="""    if y0 is not None:
         # Reset initial values as well
@@ -59,19 +59,56 @@ assert s.count(old)==1; s=s.replace(old,"")
 anchor="    if normalized:\n        norm = _steady_state_worker("
 assert s.count(anchor)==1; s=s.replace(anchor, old+anchor); open(p,'w').write(s)
 ''',
-    'm6': '''# response_coefficients: the caller's `variables` are not handed to the worker
+    'm6': r'''# response_coefficients: the caller's `variables` are not handed to the worker
 p='src/mxlpy/mca.py'; s=open(p).read()
 old="            y0=variables,\n"
 assert s.count(old)==1; s=s.replace(old,"            y0=None,\n"); open(p,'w').write(s)
 ''',
-    'm7': '''# displacement default of the elasticities 1e-4 -> 1e-2
+    'm7': r'''# displacement default of the elasticities 1e-4 -> 1e-2
 p='src/mxlpy/mca.py'; s=open(p).read()
 assert s.count("displacement: float = 1e-4,")==4; s=s.replace("displacement: float = 1e-4,","displacement: float = 1e-2,"); open(p,'w').write(s)
 ''',
-    'm8': '''# worker: upper / lower perturbations swapped (sign of every response coefficient flips)
+    'm8': r'''# worker: upper / lower perturbations swapped (sign of every response coefficient flips)
 p='src/mxlpy/mca.py'; s=open(p).read()
 a="model.update_parameters({parameter: old * (1 + displacement)})"; b="model.update_parameters({parameter: old * (1 - displacement)})"
 assert s.count(a)==1 and s.count(b)==1; s=s.replace(a,"@@").replace(b,a).replace("@@",b); open(p,'w').write(s)
+''',
+    'm9': '''# response_coefficients: the flux frame is built from the concentration series
+p='src/mxlpy/mca.py'; s=open(p).read()
+old="fluxes=pd.DataFrame({k: v[1] for k, v in res})"
+assert s.count(old)==1; s=s.replace(old,"fluxes=pd.DataFrame({k: v[0] for k, v in res})"); open(p,'w').write(s)
+''',
+    'm10': '''# worker: the flux quotient loses the factor 2 (flux response coefficients doubled)
+p='src/mxlpy/mca.py'; s=open(p).read()
+import re
+old="flux_resp = (upper.fluxes.iloc[-1] - lower.fluxes.iloc[-1]) / (\\n        2 * displacement * old\\n    )"
+new="flux_resp = (upper.fluxes.iloc[-1] - lower.fluxes.iloc[-1]) / (\\n        displacement * old\\n    )"
+if s.count(old)==1: s=s.replace(old,new)
+else:
+    old2="flux_resp = (upper.fluxes.iloc[-1] - lower.fluxes.iloc[-1]) / distance"
+    assert s.count(old2)==1; s=s.replace(old2, old2+" * 2")
+open(p,'w').write(s)
+''',
+    # ---- on top of a tree that has fixes/C18-zero-state.diff (run with `tools/c18_switch.py repaired` in force) ----
+    'z1': '''# _displace: the distance at a zero value is d instead of 2 d
+p='src/mxlpy/mca.py'; s=open(p).read()
+old="        return displacement, -displacement, 2 * displacement\\n"
+assert s.count(old)==1; s=s.replace(old,"        return displacement, -displacement, displacement\\n"); open(p,'w').write(s)
+''',
+    'z2': '''# _displace: one-sided difference at a zero value (lower point 0) with the central divisor
+p='src/mxlpy/mca.py'; s=open(p).read()
+old="        return displacement, -displacement, 2 * displacement\\n"
+assert s.count(old)==1; s=s.replace(old,"        return displacement, 0.0, 2 * displacement\\n"); open(p,'w').write(s)
+''',
+    'z3': '''# _displace: the zero branch is dropped (the defect comes back)
+p='src/mxlpy/mca.py'; s=open(p).read()
+old="    if value == 0:\\n        return displacement, -displacement, 2 * displacement\\n"
+assert s.count(old)==1; s=s.replace(old,""); open(p,'w').write(s)
+''',
+    'z4': '''# _displace: "close to zero" instead of "exactly zero" (absolute displacement for |value| < 1)
+p='src/mxlpy/mca.py'; s=open(p).read()
+old="    if value == 0:\\n"
+assert s.count(old)==1; s=s.replace(old,"    if abs(value) < 1:\\n"); open(p,'w').write(s)
 ''',
 }
 
